@@ -188,7 +188,7 @@ def job_histories(ss, seqs):
                 assigned = _apply(vm, op, k_step)
                 after = {n: _val(vm, n) for n in vm.variables}
                 za = _complex_value(vm)
-                snaps.append((op, before, after, zb, za, assigned, list(vm.trainable_vars), vm.variables["t1"] is vm.variables["t2"], tv_before))
+                snaps.append((op, before, after, zb, za, assigned, list(vm.trainable_vars), vm.variables["t1"] is vm.variables["t2"], tv_before, bool(vm.complex_vars["c"])))
             return vm, snaps
 
         ex = fork.Explorer(max_paths=16, max_depth=12, timeout_s=10, total_s=300)
@@ -201,7 +201,7 @@ def job_histories(ss, seqs):
             vm, snaps = path.result
             F = list(path.ctx.facts) + list(path.pc)
             pay = lambda m, seq=seq: dict(kind="history", seq=[OPS[o] for o in seq], model={k: float(v) for k, v in m.items() if not k.startswith(("sqrt#", "uf_"))})
-            for step, (op, before, after, zb, za, assigned, tv, tied, tv_before) in enumerate(snaps):
+            for step, (op, before, after, zb, za, assigned, tv, tied, tv_before, polar_now) in enumerate(snaps):
                 states += 1
                 transitions += 1
                 nm = OPS[op]
@@ -226,7 +226,7 @@ def job_histories(ss, seqs):
                              describe="the complex value r e^{i phi} / x + i y is preserved")
                 if nm in ("std_polar", "standard_complex", "trans_polar"):
                     r_after = after["cr"]
-                    if vm.complex_vars["c"]:
+                    if polar_now:  # the representation right after this step (not at the end of the sequence)
                         ss.prove("vm.std_radius_nonneg[%s]" % stag, F, T.lt(r_after, T.ZERO), key="vm.std_radius." + nm, payload=pay, timeout=30, describe="after standardisation r >= 0")
     ss.note(name="vm.histories", states=max(states, 1), transitions=max(transitions, 1), sequences=len(seqs))
 
